@@ -39,7 +39,7 @@ OUTSIDE = 'float event times / timesteps; more events; timelines nested in ' \
 
 class Holder(Process):
     def ports_schema(self):
-        leaves = {v: {'_default': 0, '_emit': True}
+        leaves = {v: {'_default': 7, '_emit': True}
                   for v in self.parameters['vars']}
         if self.parameters.get('nested'):
             return {'store': {'sub': leaves}}
@@ -86,14 +86,14 @@ def _sig_factory(n, tau, times):
 def body(ctx, cfg):
     n, tau, T = cfg['n'], cfg['tau'], cfg['T']
     times = [ctx.int('t', 0, T) for _ in range(n)]
-    vals = [ctx.int('w', 1, 50) for _ in range(n)]
+    vals = [ctx.int('w', 0, 50) for _ in range(n)]   # 0: a falsy value
     if cfg['shared']:
         # events 0 and 1 drive the same variable, the others their own
         var_of = ['v0'] + ['v%d' % max(0, i - 1) for i in range(1, n)]
     else:
         var_of = ['v%d' % i for i in range(n)]
     variables = sorted(set(var_of))
-    init = {v: ctx.int('i', -5, 0) for v in variables}
+    init = {v: ctx.int('i', -5, -1) for v in variables}
     nested = bool(cfg.get('nested'))
     key = (lambda v: ('store', 'sub', v)) if nested else (lambda v: ('store', v))
     timeline = [(times[i], {key(var_of[i]): vals[i]}) for i in range(n)]
